@@ -49,7 +49,7 @@ PLANS = {
     ),
     'C08': dict(
         oracle='C08', level='exploration',
-        profiles=[('history', 3), ('pseudo', 2)], curated=[], configs=ALLCFG,
+        profiles=[('history', 2), ('hist_explicit', 3), ('pseudo', 1)], curated=[], configs=ALLCFG,
         cp=dict(max_ops=30, kinds=['P']), examples=(400, 3000), floor=(40, 400),
         rule='Generated enter/move/exit histories on machines whose submachines carry each history policy (1-3 regions), incl. '
              'explicit/fork/entry-point entries; oracle: entry behaviours per root region and active states of active machines '
@@ -96,7 +96,7 @@ PLANS = {
     'C04': dict(
         oracle='C04', level='exploration',
         profiles=[('queue', 6)], curated=[], configs=ALLCFG,
-        cp=dict(max_ops=25, kinds=['P', 'P', 'P', 'Q', 'Q', 'X', 'N'], scripts={'p': ['f', 'r', 'q', 'Q']},
+        cp=dict(max_ops=25, kinds=['P', 'P', 'P', 'Q', 'Q', 'X', 'N'], scripts={'p': ['f', 'r', 'q', 'Q'], 't': True},
                 start_scripts={'p': ['f', 'r', 'q', 'Q']}),
         examples=(300, 2500), floor=(100, 1000),
         rule='Generated histories in which behaviours at arbitrary callback ordinals (guards, exits, actions, entries, also during '
@@ -111,7 +111,7 @@ PLANS = {
     ),
     'C05': dict(
         oracle='C05', level='exploration',
-        profiles=[('defer', 6)], curated=[], configs=ALLCFG,
+        profiles=[('defer', 5), ('defer_nested', 5)], curated=[], configs=ALLCFG,
         cp=dict(max_ops=30, kinds=['P', 'P', 'P', 'P', 'Q', 'X', 'N'], scripts={'p': ['r', 'Q']}),
         examples=(200, 2000), floor=(60, 600),
         rule='Generated histories on machines whose root-level states defer 1-2 event types (inside the documented back/back11 '
@@ -255,6 +255,21 @@ PLANS = {
         assumptions=['queues of sufficient capacity', 'copying back/back11 machines with pending events is excluded (known finding of C15)'],
         level_text='Fuzzing with sanitizers: memory-safety and exactly-once lifetime held on everything explored; the type grid is enumerated completely, operation histories are generated.',
         technique='coverage-guided fuzzing (libFuzzer + ASan/UBSan) with an in-target lifetime/value oracle',
+    ),
+    'C18': dict(
+        oracle='C18', level='exploration',
+        profiles=[('events', 7)], curated=[], configs=[1, 4, 5],
+        cp=dict(max_ops=25, kinds=['P', 'P', 'P', 'P', 'Q', 'X']),
+        examples=(300, 2500), floor=(100, 1000),
+        rule='Generated machines (depth 1-2) mixing, in one state and across submachine levels, rows triggered by the exact event type, '
+             'by a public base class (1-2 inheritance levels) and by a Kleene type (boost::any for back/back11, std::any for backmp11) at '
+             'varying table positions; every concrete event type is sent (directly and through enqueue/execute) with generated payloads '
+             'and a checksummed body of 1-200 bytes. Oracle: the whole step equals the model (which row wins = table position only; the '
+             'event description each behaviour logs is the exact type, the base type, or any(<dynamic type>#<payload>)), and no body '
+             'arrives corrupted. Non-trivial = a step whose consulted rows use >= 2 trigger kinds; distinct by (spec, configuration, '
+             'event, kinds, rows consulted).',
+        assumptions=['back, back11 (where the declarations compile) and backmp11 flat_fold, as in the property quantifier',
+                     'user-declared Kleene types are not generated in this revision'],
     ),
 }
 NOT_YET = {}
